@@ -181,6 +181,17 @@ class Interp:
             out = fin
         return out
 
+    def s_With(self, s: ast.With, st: State) -> t.List[t.Tuple[State, Outcome]]:
+        """with E as v: B   -   v := value of E (a memoryview / file like object is its own __enter__ result), then B;
+        what __exit__ does is outside the layout model (it releases, it does not change bytes)."""
+        for item in s.items:
+            v = self.ev.eval(item.context_expr, st)
+            if item.optional_vars is not None:
+                self.assign(item.optional_vars, v, st, s)
+        return self.block(list(s.body), st)
+
+    s_AsyncWith = s_With  # type: ignore[assignment]
+
     def s_Pass(self, s: ast.Pass, st: State) -> t.List[t.Tuple[State, Outcome]]:
         return [(st, Outcome("fall"))]
 
